@@ -171,7 +171,9 @@ class C07(core.Property):
         cfg = draw_cfg(self._families()[name], rng)
         if tier == "thorough" and "end" in cfg and isinstance(cfg["end"], (int, float)) and rng.random() < 0.2:
             cfg["end"] = float(cfg["end"]) * rng.choice([2, 3])        # some long runs (wrap-arounds, drift)
-        return {"family": name, "cfg": cfg, "seed": rng.randrange(2**31), "cap": self.CAP}
+        # the case seed: mostly a random 31-bit value, sometimes 0 / 1 (valid seeds that look falsy / trivial)
+        seed = rng.choice([0, 0, 1]) if rng.random() < 0.08 else rng.randrange(2**31)
+        return {"family": name, "cfg": cfg, "seed": seed, "cap": self.CAP}
 
     # ------------------------------------------------------------------ the modelled timer (ShiftedServer)
     REARM = "rearm-shift"
